@@ -104,6 +104,14 @@ def run_for(prop):
                 pp = os.path.join(regress_dir, cid, 'patch.diff')
                 if os.path.isfile(pp):
                     jobs.append((prop, 'seeded', 'revert-' + cid, pp))
+    # rule-liveness witnesses (hand-written edits, one per rule that no
+    # other variant makes fire)
+    wdir = os.path.join(VERIF, 'witness')
+    if os.path.isdir(wdir):
+        for rule in sorted(os.listdir(wdir)):
+            pp = os.path.join(wdir, rule, 'patch.diff')
+            if rule.startswith(prop + '.') and os.path.isfile(pp):
+                jobs.append((prop, 'seeded', 'witness-' + rule, pp))
     if os.path.isdir(neutral_dir):
         for vid in sorted(os.listdir(neutral_dir)):
             pp = os.path.join(neutral_dir, vid, 'patch.diff')
